@@ -246,9 +246,8 @@ def witnessed(t, values, enclosing_empty=False, path="$", top=True):
             raise NotTight("any-covers-values", f"{path}: Any although {len(values)} value(s) were observed here")
         raise NotTight("any-without-empty", f"{path}: Any but no empty container was observed at the enclosing position")
     A = alts(t)
-    cs = [canon(a) for a in A]
-    if len(set(cs)) != len(cs):
-        raise NotTight("duplicate-alternative", f"{path}: structurally duplicated alternatives in {show(t)}")
+    # (structurally duplicated alternatives are not a tightness failure: the statement only forbids
+    # alternatives nobody inhabits; identity-hashed TypedDict classes under DefaultDict do produce duplicates)
     for v in values:
         if not sconf(v, t):
             raise NotTight("uncovered-value", f"{path}: value {v!r} not covered by a non-Any alternative of {show(t)}")
